@@ -15,6 +15,9 @@ import re
 from .facts import Body
 
 
+DEBUG = None      # set to a list to record why a candidate was rejected (development aid)
+
+
 def _first_field(p):
     return p and isinstance(p[0], dict) and 'f' in p[0]
 
@@ -72,11 +75,14 @@ def _tuple_field_ty(ty, fi):
     return parts[fi] if fi < len(parts) else None
 
 
-def sroa(facts, body, max_rounds=4):
+def sroa(facts, body, max_rounds=8):
     cur = body
     total = 0
     for _ in range(max_rounds):
-        nb, n = _sroa_once(facts, cur)
+        cur0, n0 = deref_refs_once(cur)
+        nb, n = _sroa_once(facts, cur0)
+        if n0 and not n:
+            nb, n = cur0, n0
         nb, n2 = unwrap_constant_variants(facts, nb)
         n += n2
         if n == 0:
@@ -86,6 +92,103 @@ def sroa(facts, body, max_rounds=4):
     if cur is not body:
         cur.sroa = total
     return cur
+
+
+def deref_refs_once(body):
+    """Reference forwarding: for a reference local with exactly one definition `r = &[mut] P`, where P is a local or a field path
+    of a local (no deref, no index), every place `(*r).rest` IS the place `P.rest` — whatever else happens to P.  Plain copies of
+    such a reference (`r2 = move r`, a closure environment field after SROA) are the same reference.  Rewriting them leaves
+    direct accesses for the analyses (a closure that captured `&score_start`, a `&mut self` helper spliced into its caller, a
+    reference captured by reference); references that are no longer read are dropped."""
+    blocks, locs = body.blocks, body.locals
+    ndefs = {}
+    for bb in blocks:
+        for s in bb['stmts']:
+            if s['s'] == 'assign' and not s['place']['p']:
+                ndefs[s['place']['l']] = ndefs.get(s['place']['l'], 0) + 1
+        t = bb['term']
+        if t['t'] == 'call' and t.get('dest') and not t['dest']['p']:
+            ndefs[t['dest']['l']] = ndefs.get(t['dest']['l'], 0) + 1
+    m = {}
+    for bb in blocks:
+        for s in bb['stmts']:
+            if s['s'] != 'assign' or s['place']['p']:
+                continue
+            r2, rv = s['place']['l'], s['rv']
+            if rv['r'] != 'ref' or ndefs.get(r2, 0) != 1 or r2 <= body.arg_count:
+                continue
+            pl = rv['place']
+            if any(not (isinstance(e, dict) and ('f' in e or 'downcast' in e)) for e in pl['p']):
+                continue
+            if pl['l'] == r2:
+                continue
+            m[r2] = (pl['l'], list(pl['p']))
+    grew = True
+    while grew and m:
+        grew = False
+        for bb in blocks:
+            for s in bb['stmts']:
+                if s['s'] == 'assign' and not s['place']['p'] and s['rv']['r'] == 'use' and 'l' in s['rv']['a'] and \
+                        not s['rv']['a']['p'] and s['rv']['a']['l'] in m and s['place']['l'] not in m and \
+                        ndefs.get(s['place']['l'], 0) == 1 and s['place']['l'] > body.arg_count:
+                    m[s['place']['l']] = m[s['rv']['a']['l']]
+                    grew = True
+    if not m:
+        return body, 0
+    count = [0]
+
+    def rw(x):
+        if isinstance(x, dict):
+            if 'l' in x and 'p' in x and x['l'] in m and x['p'][:1] == ['deref']:
+                y = dict(x)
+                tl, tp = m[x['l']]
+                y['l'] = tl
+                y['p'] = copy.deepcopy(tp) + [rw(e) for e in x['p'][1:]]
+                if y.get('k') == 'move':
+                    y['k'] = 'copy'
+                count[0] += 1
+                return y
+            return {k: rw(v) for k, v in x.items()}
+        if isinstance(x, list):
+            return [rw(v) for v in x]
+        return x
+    raw = dict(body.raw)
+    raw['blocks'] = rw(copy.deepcopy(body.raw['blocks']))
+    if not count[0]:
+        return body, 0
+
+    def mentions(x, l):
+        if isinstance(x, dict):
+            if x.get('l') == l and 'p' in x:
+                return True
+            return any(mentions(v, l) for v in x.values())
+        if isinstance(x, list):
+            return any(mentions(v, l) for v in x)
+        return False
+    changed = True
+    while changed:
+        changed = False
+        for r2 in list(m):
+            uses = 0
+            for bb in raw['blocks']:
+                for st in bb['stmts']:
+                    if st['s'] == 'assign' and st['place']['l'] == r2 and not st['place']['p']:
+                        continue
+                    if mentions(st, r2):
+                        uses += 1
+                if mentions(bb['term'], r2):
+                    uses += 1
+            if uses == 0:
+                for bb in raw['blocks']:
+                    bb['stmts'] = [st for st in bb['stmts'] if not (st['s'] == 'assign' and st['place']['l'] == r2 and not st['place']['p'])]
+                del m[r2]
+                changed = True
+    raw['locals'] = copy.deepcopy(body.raw['locals'])
+    nb = Body(raw, body.crate_kind)
+    for a in ('key_in_facts', 'inlined', 'original', 'fused', 'yields'):
+        if hasattr(body, a):
+            setattr(nb, a, getattr(body, a))
+    return nb, count[0]
 
 
 def _struct_like(facts, ty):
@@ -163,6 +266,9 @@ def _sroa_once(facts, body):
 
     def bad(l):
         if l in cand:
+            if DEBUG is not None and l not in info.bad:
+                import traceback
+                DEBUG.append((l, locs[l]['ty'], traceback.extract_stack()[-2].lineno))
             info.bad.add(l)
 
     def seen_field(l, e):
